@@ -13,13 +13,16 @@ Definition enc_members (l : list (name * list Z)) : list Z :=
 
 (* Fragment.prepare on a design whose fragment tree is `f` with user ports `uports`
    (explicit name or None, conn.name): [1; created domains (order of the missing_domain calls);
-   final port names in order] (`top`: the submodule tree, from which the IO ports used are listed in first-use order) | [-1; 1] AssertionError | [-1; 2] TypeError *)
-Definition k_dom (f : frag) (uports : list (option name * name)) (top : kid) : list Z :=
+   final port names in order] (`top`: the submodule tree, from which the IO ports used are listed in first-use order);
+   then, per generated module (`mods`), the keys of Fragment.statements in order | [-1; 1] AssertionError | [-1; 2] TypeError *)
+Definition k_dom (f : frag) (uports : list (option name * name)) (top : kid)
+                 (mods : list (list (list (name * name)) * list name)) : list Z :=
   let ds := create_missing_sorted (missing_set f) in
   let ioports := io_kid top in
   (* prepare: user ports, then clk/rst of the created domains; Design._add_io_ports appends the IO ports *)
   match assign_port_names (uports ++ map (fun n => (None, n)) (new_ports ds) ++ map (fun n => (None, n)) ioports) with
   | Ok l => 1 :: enc_names ds ++ enc_names l
+                ++ concat (map (fun p => enc_names (stmt_keys (fst p) (snd p))) mods)
   | AssertErr => [-1; 1]
   | TypeErr => [-1; 2]
   end.
